@@ -2,7 +2,7 @@
 import json
 
 from .. import fake_ai, run, scenario
-from .common import (Case, HELD, VIOLATED, INCONCLUSIVE, TERM, bad_outcome, files_text, h, lua_script, rng)
+from .common import (Case, HELD, VIOLATED, INCONCLUSIVE, TERM, bad_outcome, files_text, h, lua_script, rng, tsan_collect, tsan_env)
 
 ID = "C11"
 LEVEL = "exploration"
@@ -41,14 +41,17 @@ def judge(ctx, s, flavour, desc, extra_env=None):
     env.update(ai.env())
     if extra_env:
         env.update(extra_env)
+    tsan_dir = None
     if flavour == "tsan":
-        env["TSAN_OPTIONS"] = "halt_on_error=0:exitcode=66"
+        tsan_dir = run.fresh_dir("tsan")
+        tsan_env(env, tsan_dir)
     root = run.make_repo(s.files)
     try:
         res = run.run(ctx.bins[flavour], [], root, stdin=None, env=env, cpu_limit=60)
         lst = run.run(ctx.bins[flavour], ["list"], root, stdin=None, env=env, cpu_limit=60)
     finally:
         run.rm(root)
+    tsan_sigs, tsan_ignored = tsan_collect(tsan_dir) if tsan_dir else ([], 0)
     key = h(s.files)
     exp = sorted(s.expected, key=str)
     per_file = {}
@@ -67,8 +70,8 @@ def judge(ctx, s, flavour, desc, extra_env=None):
 
     if res.cls == "wall-timeout" or lst.cls == "wall-timeout":
         return Case(INCONCLUSIVE, key=key, summary="wall timeout", evals=2)
-    if res.cls == "tsan" or lst.cls == "tsan":
-        return bad("C11/tsan-report", "ThreadSanitizer report: %s" % (res.err_text() + lst.err_text())[:500])
+    if tsan_sigs:
+        return bad("C11/tsan/" + tsan_sigs[0], "ThreadSanitizer report(s) outside tokio's I/O driver: %s" % tsan_sigs[:3])
     if bad_outcome(res) or res.cls == "usage":
         return bad("C11/run-%s" % res.cls, "validation run ended %s: %s" % (res.cls, res.err_text()[:300]))
     err = res.err_text()
@@ -113,7 +116,7 @@ def judge(ctx, s, flavour, desc, extra_env=None):
         sample = {"files": {p: t[:400] for p, t in list(s.files.items())[:2]}, "expected": exp[:8], "exit": res.rc}
     return Case(HELD, key=key, nontrivial=nontrivial, evals=2, sets=sets, sample=sample,
                 counters={"diagnostics_matched": len(exp), "blocks": sum(len(b) for b in s.blocks.values()),
-                          "runs_" + flavour: 2})
+                          "runs_" + flavour: 2, "tsan_reports_filtered_tokio_io": tsan_ignored})
 
 
 def run_job(job, ctx):
